@@ -593,6 +593,53 @@ func (s *c11Sess) neuronjson(n int) {
 	}
 }
 
+// neuronjsonStaggered: two updates of one annotation start together, a third arrives when the first has finished
+// and the second is between its read and its write (a late arrival must still be serialised with the one inside)
+func (s *c11Sess) neuronjsonStaggered() {
+	name := fmt.Sprintf("njs%d", s.r.Intn(1<<30))
+	NewInstance(s.root, "neuronjson", name, nil)
+	base := "node/" + s.root + "/" + name + "/"
+	Post(base+"key/77?u=tester", []byte(`{"bodyid":77,"base":"x"}`))
+	b := newBarrier("neuronjson.storeAndUpdate", 2)
+	dvid.VerifYieldFunc = b.yield
+	var rs [4]Resp
+	var wg sync.WaitGroup
+	start := func(i int, delay time.Duration) {
+		wg.Add(1)
+		go func() {
+			defer wg.Done()
+			time.Sleep(delay)
+			rs[i] = Post(base+"key/77?u=tester", []byte(fmt.Sprintf(`{"bodyid":77,"g%d":%d}`, i, i)))
+		}()
+	}
+	start(0, 0)
+	start(1, 20*time.Millisecond)
+	start(2, b.timeout+150*time.Millisecond) // the first has timed out of the window and finished by then
+	start(3, 2*b.timeout+300*time.Millisecond)
+	wg.Wait()
+	dvid.VerifYieldFunc = nil
+	s.c.Count(fmt.Sprintf("neuronjson staggered window-overlapped=%v", b.met))
+	s.c.Eval("neuronjson staggered updates", true)
+	for _, r := range rs {
+		if !r.OK() {
+			return
+		}
+	}
+	g := Get(base + "key/77")
+	var m map[string]interface{}
+	json.Unmarshal(g.Body, &m)
+	var missing []string
+	for _, f := range []string{"base", "g0", "g1", "g2", "g3"} {
+		if _, found := m[f]; !found {
+			missing = append(missing, f)
+		}
+	}
+	if len(missing) > 0 {
+		s.report("neuronjson.storeAndUpdate staggered", "after acknowledged partial updates of one neuron annotation, the later ones arriving while an earlier one was between read and write, a field of an acknowledged update is missing",
+			fmt.Sprintf("key 77 = {base:x}; POST key/77 {g0}, {g1} together, {g2} and {g3} arriving later: %v\nGET key/77 -> %s\nmissing fields: %v", rs, g, missing), b.met)
+	}
+}
+
 // keyvalue: N writers of one key (the value must be one of the written ones) and of distinct keys (all present)
 func (s *c11Sess) keyvalue(n int) {
 	name := fmt.Sprintf("kv%d", s.r.Intn(1<<30))
@@ -649,6 +696,7 @@ func runC11(c *Ctx) {
 			return // the process-wide manager is stuck: nothing after this can be trusted
 		}
 		s.neuronjson(n)
+		s.neuronjsonStaggered()
 		s.keyvalue(4 + n)
 	}
 }
